@@ -198,6 +198,16 @@ static inline void draw_config(vg::Case &c, Config &g, const DrawFlags &f = Draw
 	g.link();
 }
 
+// Cost governor: big inputs are not combined with the slowest option values (extreme presets,
+// depth in the hundreds, thousands of tiny Blocks).  Applied after drawing, recorded in the description.
+static inline void govern_cost(Config &g, size_t len) {
+	if (len <= (96u << 10)) return;
+	if (g.use_preset && (g.preset & LZMA_PRESET_EXTREME)) { g.preset &= ~LZMA_PRESET_EXTREME; lzma_lzma_preset(&g.lz, g.preset); }
+	if (!g.use_preset) { if (g.lz.depth > 12) g.lz.depth = 12; if (len > (512u << 10) && g.lz.mode == LZMA_MODE_NORMAL && g.lz.nice_len > 64) g.lz.nice_len = 64; }
+	if (g.entry == E_STREAM_MT && g.block_size && len / g.block_size > 48) g.block_size = len / 48 + 1;
+	g.link();
+}
+
 // Set the hook so that normalize() triggers after ~norm_after bytes (0 disables).
 static inline void apply_norm_hook(const Config &g) {
 	if (!g.norm_after) { lzma_verif_mf_offset_bias = 0; return; }
@@ -270,7 +280,7 @@ static inline Encoded encode_all(Config &g, const std::vector<uint8_t> &in, cons
 	lzma_stream s = LZMA_STREAM_INIT; s.allocator = al;
 	lzma_ret r = init_encoder(&s, g);
 	if (r != LZMA_OK) { E.ret = r; lzma_end(&s); lzma_verif_mf_offset_bias = 0; return E; }
-	drv::Opts o; o.out_cap = out_cap; if (g.entry == E_STREAM_MT) o.idle_limit = 1u << 30;
+	drv::Opts o; o.out_cap = out_cap; if (g.entry == E_STREAM_MT) { o.idle_limit = 1u << 30; if (g.timeout) o.small_call_budget = 1500; /* native timed waits are real time */ }
 	if (g.entry == E_MICROLZMA) {
 		// single lzma_code(LZMA_FINISH) call with the whole input and a limited output buffer
 		E.bytes.resize(g.micro_limit); static uint8_t z[1];
